@@ -262,6 +262,20 @@ def gen_chain(rng, nprng, loc, N, kind="mps", q=None, dtype=None, dmax=3, extra=
     raise CaseSkip("could not draw a non-vanishing chain")
 
 
+def mirror_chain(ch):
+    """The same kind of object with the total charge carried by the *last* virtual leg, site signatures unchanged.
+
+    ch (charge q on the first leg, sites 0..N-1) is read backwards: site tensors are taken in reverse order with their virtual
+    legs exchanged, and both virtual legs are re-described with flipped signature and negated charges (the same spaces), so
+    that every site keeps the signature (-1, +1, +1[, -1]).  The first virtual leg then carries charge 0 and the last one
+    (signature +1) carries -q.  Dense image: reverse_dense(ch.dense())."""
+    perm = (2, 1, 0) if ch.kind == "mps" else (2, 1, 0, 3)
+    sites = [h.permute(perm).flip_charges((0, 2)) for h in reversed(ch.sites)]
+    out = HChain(ch.loc, ch.kind, sites, periodic=False, q=ch.q)
+    out.charge_at = "last"
+    return out
+
+
 def gen_pbc(rng, nprng, loc, N, dtype=None, dmax=2):
     """Random periodic MPO: every bond carries the same sector set (zero charge + some ket-bra differences), the closing
     bond has matching dimensions; every site tensor has charge zero."""
